@@ -226,6 +226,13 @@ func (k *Keys) ReadKey() (key rune, isAbort bool) {
 		key = []rune(string(buf))[0]
 	default:
 		buf, _ := k.readInputFiltered()
+
+		// The input ended or failed while we were waiting
+		// for this key: there is none, abort the command.
+		if len(buf) == 0 {
+			return inputrc.Esc, true
+		}
+
 		key = []rune(string(buf))[0]
 	}
 
